@@ -1884,8 +1884,15 @@ pub(crate) fn add_sequence_dyn_cmp<W, R, T>(
                                 }
                             }
                         };
-                        let arr0 = seq0.iter(ns, rt.clone());
-                        let arr1 = seq1.iter(ns, rt.clone());
+                        // only the common prefix is compared: `zip` would evaluate one more element of the longer
+                        // operand and drop it, together with any violation raised while producing it
+                        let common = match (seq0.len(), seq1.len()) {
+                            (Some(l0), Some(l1)) => l0.min(l1),
+                            (Some(l), None) | (None, Some(l)) => l,
+                            (None, None) => usize::MAX,
+                        };
+                        let arr0 = seq0.iter(ns, rt.clone()).take(common);
+                        let arr1 = seq1.iter(ns, rt.clone()).take(common);
                         let inner_func = to_primitive!(inner_value, Function);
 
                         for ((x, y), search) in search(arr0.zip(arr1), rt.clone()) {
